@@ -5,24 +5,62 @@ class C39(Spec):
     prop = "C39"
     drv = "drv_c39"
     harness = "h_c39"
-    required_theorems = ("C39.jrpc_gate", "C39.jrpc_auth_always", "C39.grpc_unary_gate", "C39.grpc_all_gated",
-                         "C39.eth_eq_main")
-    level_text = ("Lean theorems about the decision logic of the three RPC gates for every configuration, client "
-                  "address, credentials and method string: a JSON-RPC / unary gRPC request from a non-loopback address "
-                  "reaches the dispatcher only if the address is whitelisted (or wildcard), the method is whitelisted and "
-                  "not blacklisted and basic auth succeeded; the same gate for server-streaming gRPC; the Ethereum-compatible "
-                  "endpoint admits exactly the addresses the main endpoints admit whenever a whitelist is configured under "
-                  "either key (both full after the two fix: commits in /repo). "
+    required_theorems = ("C39.ip_gate", "C39.ip_gate_strict", "C39.zero_entry_admits_unlisted",
+                         "C39.gate_method_eq_dispatch_method", "C39.gate_accepts_dispatch_same",
+                         "C39.jrpc_gate", "C39.jrpc_gate_body", "C39.jrpc_method_that_runs", "C39.jrpc_auth_always",
+                         "C39.grpc_unary_gate", "C39.grpc_all_gated",
+                         "C39.grpc_runs_without_basic_auth", "C39.grpc_gate_full_false",
+                         "C39.eth_eq_main", "C39.reinit_admits_union", "C39.ip_gate_reinit",
+                         "C39.reinit_keeps_old_entries")
+    partial = ("C39.grpc_unary_gate / C39.grpc_all_gated: GrpcGateFull without its AuthOK conjunct (the gRPC "
+               "interceptors never look at credentials; the full statement is refuted, see `refuted`)",
+               "C39.ip_gate / jrpc_gate / jrpc_gate_body / grpc_*_gate: 'wildcard' includes the named assumption "
+               "zero-entry-is-wildcard (a configured entry 0.0.0.0); C39.ip_gate_strict is the statement with the "
+               "documented wildcard `*` only, under the hypothesis that no configured entry is 0.0.0.0",
+               "C39.ip_gate and everything built on it speak about one InitCfg from empty package maps; "
+               "C39.ip_gate_reinit is the statement after two configurations (either one may cover the address)")
+    refuted = ("C39.grpc_gate_full_false (witness C39.grpc_runs_without_basic_auth: whitelist=[10.0.0.7], "
+               "jrpcUserName=admin, jrpcUserPasswd=pw, gRPC /types.chain33/Version from 10.0.0.7 without credentials "
+               "runs; replayed on the real gRPC server from corpus/C39/grpc_without_basic_auth.ops; finding "
+               "C39|grpc-unary|ran-without-basic-auth and C39|grpc-stream-SubEvent|ran-without-basic-auth)",)
+    level_text = ("Lean theorems about the decision logic of the three RPC gates for every configuration, client address, "
+                  "credentials and request body. Request shapes: a body is the ordered member list of the top-level JSON "
+                  "object; Go's struct-field matching (exact key, else case-folded key incl. U+017F/U+212A, later members "
+                  "overwrite, null keeps a value field and nils a pointer field, type errors reject the body) is modelled "
+                  "for rpc/http.go's clientRequest (the gate) and net/rpc/jsonrpc's serverRequest (the dispatcher) as they "
+                  "are declared; gate_method_eq_dispatch_method proves that both read the same Method from every member "
+                  "list, gate_accepts_dispatch_same that a body the gate accepts is accepted by the codec with that method, "
+                  "and jrpc_gate_body that whatever ServiceMethod the middleware hands to net/rpc for a non-loopback client "
+                  "is whitelisted and not blacklisted, the address is whitelisted (or wildcard) and basic auth succeeded. "
+                  "The IP gate needs no side hypothesis (a non-loopback address never renders as the default entry "
+                  "127.0.0.1: Nat.repr injectivity / an IPv6 text contains ':'). Same gate for unary and server-streaming "
+                  "gRPC minus basic auth, whose clause is refuted in Lean and on the real server (finding). The "
+                  "Ethereum-compatible endpoint admits exactly the addresses the main endpoints admit whenever a whitelist "
+                  "is configured under either key (eth_eq_main, full equality). Two configurations on one process: "
+                  "reinit_admits_union (the package map is the union). "
                   "Tie: the real middleware/handlers of /repo are served in-process with arbitrary remote addresses "
-                  "(JSON-RPC handler through a verif hook, the real grpc.Server on an in-memory listener, ethrpc "
-                  "ServeHTTP) under generated configurations, credentials and request-body shapes; the first gate that "
-                  "stops each request is compared with the model, and the spec predicate is evaluated on what actually ran.")
-    level_note = ("net.ParseIP/To4/IsLoopback, encoding/json decoding (gate and dispatcher both use it), net/rpc and "
-                  "grpc-go dispatch are runtime behaviour covered only by the differential run; addresses are modelled "
-                  "structurally (v4, v4-mapped, ::1, other IPv6 text); the package-level access maps are reset between "
-                  "configurations (a node initialises them once).")
-    assumptions = ("a node calls rpc.InitCfg once (access maps start empty)",
-                   "gRPC peers are TCP addresses (isLoopBackAddr never matches)")
+                  "(JSON-RPC handler through a verif hook, the real grpc.Server on an in-memory listener, ethrpc ServeHTTP) "
+                  "under generated configurations, credentials (header / gRPC metadata) and bodies; generated member lists "
+                  "(key spellings, duplicates, decoys, nulls, wrong kinds, uint64 overflow) are rendered to JSON text, sent "
+                  "through the real handler, and the first gate that stopped the request plus the probe method that actually "
+                  "ran are compared with the model decoding the same member list; InitIPWhitelist is called a second time "
+                  "without reset and the admitted addresses compared; the spec predicate is evaluated on what actually ran.")
+    level_note = ("JSON lexing (whitespace, string/key escapes, number syntax, which literal stands for an array / another kind), "
+                  "net.ParseIP/To4/IsLoopback, base64, net/rpc service lookup and grpc-go dispatch are runtime behaviour covered "
+                  "by the differential run only; unicode.SimpleFold is modelled on the orbits of ASCII letters only (other runes "
+                  "cannot match an ASCII field name); addresses are modelled structurally (v4, v4-mapped, ::1, other IPv6 text "
+                  "pre:post); the Ethereum endpoint's own method blacklist and its lack of basic auth are outside the property "
+                  "text (IP clause only) and are not modelled.")
+    assumptions = ("InitCfg-once: a node calls rpc.InitCfg once, the package access maps start empty (necessary: "
+                   "C39.reinit_keeps_old_entries, shown on the real code by op ipadd; the harness resets the maps between "
+                   "configurations through the verif hook)",
+                   "zero-entry-is-wildcard: a configured IP entry `0.0.0.0` (the code's internal encoding of `*`) anywhere in "
+                   "the effective list admits every address on all three endpoints; undocumented in chain33.toml / types.RPC, "
+                   "which name only `*` (C39.zero_entry_admits_unlisted; counted as admitted_only_via_0.0.0.0_entry); the gate "
+                   "theorems count it as 'wildcard', C39.ip_gate_strict is the statement without it",
+                   "gRPC peers are TCP addresses (isLoopBackAddr never matches)",
+                   "request bodies hold one JSON value (json.Unmarshal rejects trailing data that Decoder.Decode would ignore: "
+                   "the gate is the stricter side)")
 
 
 SPEC = C39()
